@@ -46,6 +46,7 @@ def run(facts, res):
     res.rule("Q1", "meld has no write effect on replica state or caches; it touches the data storage only through lister / raw writer / applied_packs")
     res.rule("Q2", "re-asserted objects come from the same reconstruction function read uses, on the same tree and revision")
     res.rule("Q3", "commit auto-resolves array conflicts in favour of the current winner")
+    res.rule("Q4", "refresh is incremental: it (re)loads only blocks and packs it does not hold yet")
 
     m = facts.body("melda::Melda::meld")
     if m is None:
@@ -77,6 +78,35 @@ def run(facts, res):
         extra = names - {R.name("lister"), R.name("raw_write"), "applied_packs"}
         if extra or not names:
             res.violation("Q1", "meld|data-methods:%s" % ",".join(sorted(extra)), "meld calls %s on its own data storage; only list_raw_items / write_raw_item / applied_packs are storage-only" % sorted(extra), m.loc())
+
+    # ------------------------------------------------------------------ Q4
+    rf = facts.body("melda::Melda::refresh")
+    if rf is not None:
+        ins = [(bi, t) for bi, t in rf.calls() if t.callee is not None and t.callee.name == "insert" and t.args and "deltas" in field_path(arg_term(rf, t, 0))[0]]
+        ok = bool(ins)
+        for bi, t in ins:
+            g = False
+            kv = {x[1] for x in walk(arg_term(rf, t, 1, 12)) if x[0] == "var"}
+            for l in lits_of(rf, bi, facts):
+                if l.kind == "call" and callee_name(l.term) == "contains_key" and l.truth is False and "deltas" in field_path(l.term[2][0])[0] and \
+                        ({x[1] for x in walk(l.term[2][1]) if x[0] == "var"} & kv):
+                    g = True
+            ok = ok and g
+        res.instance("Q4", "refresh inserts a block only if the block map does not contain its id: %s" % ok, rf.loc())
+        if not ok:
+            res.violation("Q4", "refresh|reloads-known-blocks", "refresh (re)inserts blocks it already holds: an applied block would be replaced by a Pending copy and applied again", rf.loc())
+    dr = facts.body("datastorage::DataStorage::refresh")
+    if dr is not None:
+        loads = [(bi, t) for bi, t in dr.calls() if t.callee is not None and t.callee.name == R.name("pack_loader")]
+        ok = bool(loads)
+        for bi, t in loads:
+            kv = {x[1] for x in walk(arg_term(dr, t, 1, 12)) if x[0] == "var"}
+            g = any(l.kind == "call" and callee_name(l.term) == "contains" and l.truth is False and "applied_pack_ids" in field_path(l.term[2][0])[0] and
+                    ({x[1] for x in walk(l.term[2][1]) if x[0] == "var"} & kv) for l in lits_of(dr, bi, facts))
+            ok = ok and g
+        res.instance("Q4", "DataStorage::refresh loads a pack only if it is not in the applied-pack set: %s" % ok, dr.loc())
+        if not ok:
+            res.violation("Q4", "DataStorage::refresh|reloads-applied-packs", "DataStorage::refresh re-applies packs that are already applied", dr.loc())
 
     # ------------------------------------------------------------------ Q2
     rd = facts.body("melda::Melda::read")
